@@ -240,36 +240,47 @@ theorem checkPath_pathError (m : Mode) (a : Facts) (hst : a.statOk = a.ex) (h : 
 mutual
 theorem runItem_spec : ∀ (i : Item) (s : St),
     (runItem i s).st = s ∧ (runItem i s).trace <+: specItem s.cwd i ∧
-    ((runItem i s).ok = true → (runItem i s).trace = specItem s.cwd i) ∧ (runItem i s).ok = noFailItem i
-  | .path rel, s => by simp [runItem, specItem, noFailItem]
-  | .fail, s => by simp [runItem, specItem, noFailItem]
+    ((runItem i s).ok = true → (runItem i s).trace = specItem s.cwd i) ∧
+    (runItem i s).ok = (noFailItem i && stableItem s.cwd i)
+  | .path rel, s => by simp [runItem, specItem, noFailItem, stableItem]
+  | .fail, s => by simp [runItem, specItem, noFailItem, stableItem]
+  | .listFile ref rels, s => by
+    simp only [runItem, specItem, noFailItem, stableItem, leave, enter]
+    cases listRefStable s.cwd ref <;> simp
   | .sub ref items, s => by
     have ih := runItems_spec items (enter s (cfgDir s.cwd ref))
-    simp only [runItem, specItem, noFailItem, leave]
-    refine ⟨trivial, ?_, ?_, ih.2.2.2⟩
+    simp only [runItem, specItem, noFailItem, stableItem, leave]
+    refine ⟨trivial, ?_, ?_, ?_⟩
     · simpa [enter] using ih.2.1
     · simpa [enter] using ih.2.2.1
+    · simpa [enter] using ih.2.2.2
 theorem runItems_spec : ∀ (l : List Item) (s : St),
     (runItems l s).st = s ∧ (runItems l s).trace <+: specItems s.cwd l ∧
-    ((runItems l s).ok = true → (runItems l s).trace = specItems s.cwd l) ∧ (runItems l s).ok = noFailItems l
-  | [], s => by simp [runItems, specItems, noFailItems]
+    ((runItems l s).ok = true → (runItems l s).trace = specItems s.cwd l) ∧
+    (runItems l s).ok = (noFailItems l && stableItems s.cwd l)
+  | [], s => by simp [runItems, specItems, noFailItems, stableItems]
   | i :: rest, s => by
     have h1 := runItem_spec i s
     have h2 := runItems_spec rest s
-    simp only [runItems, specItems, noFailItems]
+    simp only [runItems, specItems, noFailItems, stableItems]
     cases hok : (runItem i s).ok
     · simp only [Bool.false_eq_true, ↓reduceIte]
       refine ⟨h1.1, ?_, ?_, ?_⟩
       · exact List.IsPrefix.trans h1.2.1 (List.prefix_append _ _)
       · intro h; rw [hok] at h; cases h
-      · rw [hok, ← h1.2.2.2, hok]; rfl
+      · have hb : (noFailItem i && stableItem s.cwd i) = false := by rw [← h1.2.2.2, hok]
+        rw [hok]
+        rcases (Bool.and_eq_false_iff.mp hb) with hb | hb <;> simp [hb]
     · simp only [↓reduceIte, h1.1]
       refine ⟨h2.1, ?_, ?_, ?_⟩
       · rw [h1.2.2.1 hok]
         exact (List.prefix_append_right_inj _).mpr h2.2.1
       · intro h
         rw [h1.2.2.1 hok, h2.2.2.1 h]
-      · rw [← h1.2.2.2, hok, h2.2.2.2]; rfl
+      · have hb : (noFailItem i && stableItem s.cwd i) = true := by rw [← h1.2.2.2, hok]
+        have hb' := Bool.and_eq_true_iff.mp hb
+        rw [h2.2.2.2]
+        simp [hb'.1, hb'.2]
 end
 
 end Jap.PathMode
